@@ -68,14 +68,15 @@ theorem assignFixed_sound (s : St F) (c : F) (asg : Cell → F) (hc : s.CacheOK 
 
 /-- `s'` extends `s`: same configuration, more regions and copy constraints. -/
 def St.Ext (s s' : St F) : Prop :=
-  s'.nrCols = s.nrCols ∧ (∃ rs, s'.regions = rs ++ s.regions) ∧ (∃ cs, s'.copies = cs ++ s.copies)
+  s'.nrCols = s.nrCols ∧ s'.maxBitLen = s.maxBitLen ∧ (∃ rs, s'.regions = rs ++ s.regions) ∧
+    (∃ cs, s'.copies = cs ++ s.copies)
 
-theorem St.Ext.refl (s : St F) : s.Ext s := ⟨rfl, ⟨[], rfl⟩, ⟨[], rfl⟩⟩
+theorem St.Ext.refl (s : St F) : s.Ext s := ⟨rfl, rfl, ⟨[], rfl⟩, ⟨[], rfl⟩⟩
 
 theorem St.Ext.trans {a b c : St F} (h1 : a.Ext b) (h2 : b.Ext c) : a.Ext c := by
-  obtain ⟨n1, ⟨r1, e1⟩, ⟨c1, f1⟩⟩ := h1
-  obtain ⟨n2, ⟨r2, e2⟩, ⟨c2, f2⟩⟩ := h2
-  exact ⟨by rw [n2, n1], ⟨r2 ++ r1, by rw [e2, e1, List.append_assoc]⟩,
+  obtain ⟨n1, m1, ⟨r1, e1⟩, ⟨c1, f1⟩⟩ := h1
+  obtain ⟨n2, m2, ⟨r2, e2⟩, ⟨c2, f2⟩⟩ := h2
+  exact ⟨by rw [n2, n1], by rw [m2, m1], ⟨r2 ++ r1, by rw [e2, e1, List.append_assoc]⟩,
     ⟨c2 ++ c1, by rw [f2, f1, List.append_assoc]⟩⟩
 
 theorem regionsHold_append (nr : Nat) (asg : Cell → F) (rs base : List (List (Row F)))
@@ -94,22 +95,23 @@ theorem copiesHold_append_right (asg : Cell → F) (a b : List (Cell × Cell))
 earlier one. -/
 theorem St.Ext.holds {s s' : St F} (e : s.Ext s') (asg : Cell → F) (h : s'.Holds R asg) :
     s.Holds R asg := by
-  obtain ⟨n, ⟨rs, er⟩, ⟨cs, ec⟩⟩ := e
+  obtain ⟨n, _, ⟨rs, er⟩, ⟨cs, ec⟩⟩ := e
   obtain ⟨hr, hcp⟩ := h
   rw [er, n] at hr; rw [ec] at hcp
   exact ⟨regionsHold_append _ _ _ _ hr, copiesHold_append_right _ _ _ hcp⟩
 
 theorem ext_addRegion (s : St F) (rows : List (Row F)) :
-    s.Ext ({ s with regions := rows :: s.regions } : St F) := ⟨rfl, ⟨[rows], rfl⟩, ⟨[], rfl⟩⟩
+    s.Ext ({ s with regions := rows :: s.regions } : St F) := ⟨rfl, rfl, ⟨[rows], rfl⟩, ⟨[], rfl⟩⟩
 
-theorem ext_copy (s : St F) (a b : Cell) : s.Ext (s.copy a b) := ⟨rfl, ⟨[], rfl⟩, ⟨[(a, b)], rfl⟩⟩
+theorem ext_copy (s : St F) (a b : Cell) : s.Ext (s.copy a b) :=
+  ⟨rfl, rfl, ⟨[], rfl⟩, ⟨[(a, b)], rfl⟩⟩
 
 theorem ext_copies' (s : St F) (l : List (Cell × Cell)) : s.Ext (s.copies' l) :=
-  ⟨rfl, ⟨[], rfl⟩, ⟨l.reverse, rfl⟩⟩
+  ⟨rfl, rfl, ⟨[], rfl⟩, ⟨l.reverse, rfl⟩⟩
 
 theorem assignFixed_ext (s : St F) (c : F) : s.Ext (assignFixed s c).2 := by
   cases hp : s.cache.find? (fun p => p.1 = c) with
   | some p => rw [assignFixed_some s c p hp]; exact St.Ext.refl s
-  | none => rw [assignFixed_none s c hp]; exact ⟨rfl, ⟨[_], rfl⟩, ⟨[], rfl⟩⟩
+  | none => rw [assignFixed_none s c hp]; exact ⟨rfl, rfl, ⟨[_], rfl⟩, ⟨[], rfl⟩⟩
 
 end MidnightZK.C04
